@@ -17,10 +17,10 @@ func init() {
 		DesignRef: "DESIGN.md §5 C13",
 		Level: "Decides that the four fragment types the writer can emit are exactly those validateRecord accepts (both readers call it before accepting a fragment), that the compression bits the writer sets are the ones both readers test and that the writer handles every compression type, " +
 			"that the checksum is computed over the same slice that is copied into the page and the header fields sit at the offsets both readers read, that the writer always makes one pass (empty records), and — over integer linear arithmetic — that the live reader answers 'wait for more data' exactly when fewer bytes are buffered than the item needs and that writer, reader and live reader agree on the maximum fragment length.",
-		Note:     "Trusted: go/packages, go/types, go/cfg; linear normaliser checker/eng/linear.go; rule tables in checker/c13.go.",
-		Covers:   "WL.log, validateRecord, recTypeFromHeader, Reader.nextNew, LiveReader.readRecord/buildRecord.",
-		NotCover: "fragment reassembly over real page/segment sequences, segment switching, schedules of a live reader against a writer, the compression codecs.",
-		Run:      runC13,
+		Note:           "Trusted: go/packages, go/types, go/cfg; linear normaliser checker/eng/linear.go; rule tables in checker/c13.go.",
+		Covers:         "WL.log, validateRecord, recTypeFromHeader, Reader.nextNew, LiveReader.readRecord/buildRecord.",
+		NotCover:       "fragment reassembly over real page/segment sequences, segment switching, schedules of a live reader against a writer, the compression codecs.",
+		Run:            runC13,
 		MinObligations: 28,
 	})
 }
@@ -167,7 +167,9 @@ func runC13(c *eng.Ctx) {
 		for _, f := range []*eng.Fn{rd, lr} {
 			c.Check("R2", f.Where(), "the reader takes length and checksum from the offsets the writer uses", offs(f, "hdr") == wo, p.Pos(f.Body.Pos()), "reader: "+offs(f, "hdr")+" writer: "+wo)
 		}
-		lr.CheckGate("R2", crc, eng.Return("rec", func(g *eng.Graph, rs *ast.ReturnStmt) bool { return len(rs.Results) == 3 && eng.ExprString(rs.Results[0]) == "rec" }))
+		lr.CheckGate("R2", crc, eng.Return("rec", func(g *eng.Graph, rs *ast.ReturnStmt) bool {
+			return len(rs.Results) == 3 && eng.ExprString(rs.Results[0]) == "rec"
+		}))
 	}
 	// ---- R3 size comparisons in linear normal form ----
 	{
